@@ -5,7 +5,9 @@ CONSTANTS
   MCKinds = {}
   Classes = {}
   MCFuns = {}
+  MCHows = {}
   Canonical = FALSE
+  AliasInit = FALSE
   EmitOn = FALSE
 POSTCONDITION TraceAccepted
 CHECK_DEADLOCK FALSE
